@@ -95,6 +95,21 @@ impl Next<f64> for WeightedMovingAverage {
             self.sum = self.sum - self.sum_flat + (input * self.weight);
         }
         self.sum_flat = self.sum_flat - old_val + input;
+
+        if self.index == 0 && self.count == self.period {
+            // The window has just wrapped around, so the ring buffer is in
+            // chronological order: recompute both running sums from it, which
+            // keeps their rounding errors from accumulating over long streams
+            // (amortized O(1) per input).
+            let mut sum = 0.0;
+            let mut sum_flat = 0.0;
+            for (i, val) in self.deque.iter().enumerate() {
+                sum += val * (i + 1) as f64;
+                sum_flat += val;
+            }
+            self.sum = sum;
+            self.sum_flat = sum_flat;
+        }
         self.sum / (self.weight * (self.weight + 1.0) / 2.0)
     }
 }
